@@ -126,6 +126,7 @@ pub fn decode(algo: Algo, bytes: &[u8]) -> Vec<Ev> {
     let mut jstate = JState::Ascii;
     let mut jout = JState::Ascii;
     let mut jflag = false;
+    let mut j_end_seen = false;
     let mut prev_escape_start: Option<usize> = None; // start offset of the escape that set jflag
     // replacement
     let mut replacement_done = false;
@@ -487,6 +488,12 @@ pub fn decode(algo: Algo, bytes: &[u8]) -> Vec<Ev> {
                 }
             },
             Algo::Iso2022Jp => {
+                if b.is_none() && !j_end_seen {
+                    // the Standard's decoder state when the input runs out (before end-of-stream
+                    // handling): initial = ASCII decoder state, ASCII output state, flag unset
+                    j_end_seen = true;
+                    ISO2022JP_INITIAL_AT_END.with(|c| c.set(jstate == JState::Ascii && jout == JState::Ascii && !jflag));
+                }
                 match jstate {
                     JState::Ascii | JState::Roman | JState::Katakana | JState::Lead => {
                         let b = match b {
@@ -614,6 +621,18 @@ pub fn decode(algo: Algo, bytes: &[u8]) -> Vec<Ev> {
         }
     }
     io.ev
+}
+
+thread_local! {
+    static ISO2022JP_INITIAL_AT_END: std::cell::Cell<bool> = const { std::cell::Cell::new(true) };
+}
+
+/// Is the Standard's ISO-2022-JP decoder back in its initial state (ASCII decoder state, ASCII
+/// output state, output flag unset, nothing pending) after consuming `prefix`?
+pub fn iso2022jp_initial_state_after(prefix: &[u8]) -> bool {
+    ISO2022JP_INITIAL_AT_END.with(|c| c.set(true));
+    let _ = decode(Algo::Iso2022Jp, prefix);
+    ISO2022JP_INITIAL_AT_END.with(|c| c.get())
 }
 
 /// Scalars with one U+FFFD per error (the "replacement" error mode).
